@@ -661,6 +661,10 @@ impl Cw1Scen {
     fn pick_sender(&self, rng: &mut Rng, admin_pct: u64, subkey_pct: u64) -> Addr {
         let admins = self.admins_now();
         let subs = self.subkeys_now();
+        // the proxy's own address as caller: what a relayed message addressed to the proxy itself looks like
+        if rng.chance(1, 40) {
+            return self.env.contract.address.clone();
+        }
         let r = rng.below(100);
         if r < admin_pct && !admins.is_empty() {
             Addr::unchecked(rng.pick(&admins).clone())
@@ -753,7 +757,8 @@ impl Cw1Scen {
             (format!("-{INVALID_ADDR}"), Addr::unchecked(INVALID_ADDR))
         } else {
             let s = if self.sub { self.pick_sender(rng, 15, 65) } else { self.pick_sender(rng, 50, 0) };
-            (format!("+{s}"), s)
+            // the mark is the real result of addr_validate (the proxy's own mock address does not validate)
+            (mark(&MockApi::default(), s.as_str()), s)
         }
     }
 }
